@@ -123,7 +123,7 @@ macro_rules! cat_own {
     )*};
 }
 
-cat_copy!(u8, u16, u32, u64, u128, usize, [u8; 3], [u16; 3], [u32; 3], [u64; 3], [u64; 16], Al16, P12, (), [u64; 0]);
+cat_copy!(u8, u16, u32, u64, u128, usize, [u8; 3], [u16; 3], [u32; 3], [u64; 3], [u64; 16], Al16, Al32, P12, (), [u64; 0]);
 cat_own!(TokA8, TokB8, TokA3, TokA16, TokA64, TokAH, TokAZ, String, Box<str>, Vec<u32>, Box<TokA8>, Option<TokA8>);
 
 macro_rules! catalogue {
@@ -185,6 +185,7 @@ catalogue! {
     ("u64x3", [u64; 3], "[u64; 3]", true),
     ("u64x16", [u64; 16], "[u64; 16]", true),
     ("al16", Al16, "simrt::tok::Al16", true),
+    ("al32", Al32, "simrt::tok::Al32", true),
     ("p12", P12, "simrt::tok::P12", true),
     ("unit", (), "()", true),
     ("u64x0", [u64; 0], "[u64; 0]", true),
@@ -300,7 +301,7 @@ impl Default for SwarmOpts {
     }
 }
 
-const PLAIN: &[&str] = &["u8", "u16", "u32", "u64", "u128", "usize", "u8x3", "u16x3", "u32x3", "u64x3", "al16", "p12", "u64x16"];
+const PLAIN: &[&str] = &["u8", "u16", "u32", "u64", "u128", "usize", "u8x3", "u16x3", "u32x3", "u64x3", "al16", "p12", "u64x16", "al32"];
 const ZSTS: &[&str] = &["unit", "u64x0", "tokaz"];
 const TOKENS: &[&str] = &["toka8", "tokb8", "toka3", "toka16", "toka64", "tokah"];
 const HEAP: &[&str] = &["string", "vecu32", "boxtok", "opttok", "boxstr"];
@@ -512,6 +513,8 @@ pub fn corpus() -> Vec<Plan> {
         // many fields in one variant (more than serde's tuple arity: clone only) and many variants
         p("many_fields", true, false, vec![add("u8"), add("toka8"), addu("u16"), add("string"), addu("u32"), add("toka3"), addu("u64"), add("tokb8"), add("u8x3"), add("toka16"), addu("u8"), add("vecu32"), add("u16x3"), add("tokah"), addu("u128"), add("boxtok"), add("u8"), add("opttok"), addu("p12"), add("toka8"), close(Simple), rm(3), rm(9), rm(15), add("toka64"), add("u16"), close(Simple)]),
         p("many_variants", true, true, vec![add("toka8"), addu("u32"), close(Simple), add("string"), close(Simple), rm(0), add("u16"), close(Basic), add("tokb8"), rm(1), close(Simple), rm(2), add("vecu32"), close(Append), add("u8"), rm(3), close(Simple), rm(4), add("toka3"), close(Simple), rm(5), rm(6), add("u64"), close(Simple), add("toka16"), close(Simple)]),
+        // a field aligned to 32 bytes (beyond u128 and beyond what malloc guarantees)
+        p("over_aligned", true, true, vec![add("u8"), add("al32"), add("toka8"), close(Simple), rm(0), addu("al32"), add("string"), close(Simple), rm(1), add("toka16"), close(Simple)]),
         // zero-size only
         p("zst_only", true, true, vec![add("unit"), add("tokaz"), close(Simple), add("u64x0"), rm(0), close(Simple)]),
     ]
